@@ -670,7 +670,7 @@ func (w *World) recheck(pk *Pkg) error {
 				switch c.Kind {
 				case "requires", "panics_iff":
 					fmt.Fprintf(&sb, "func %s(%s) bool { return %s }\n", c.FnName, strings.Join(ps, ", "), c.Text)
-				case "ensures", "derived":
+				case "ensures", "derived", "defines":
 					fmt.Fprintf(&sb, "func %s(%s) bool { return %s }\n", c.FnName, strings.Join(append(append(append([]string{}, ps...), gs...), rs...), ", "), c.Text)
 				case "ghost":
 					if lp, ok := anchored(c); ok {
